@@ -979,3 +979,121 @@ Example C01_static_update_weighted_position_optimum_example :
   wf_vars (svars sn') /\ (4 < length (blocks sn'))%nat /\ bvars (block_of sn' 4) <> [] /\ 0 < bscale (block_of sn' 4) /\
   blk_ok (update_weighted_position sn' 4) 4.
 Proof. exact uwp_blk_ok_example. Qed.
+
+(* ---- The SECOND half of Blocks::split and one whole Blocks::split (Vpsc/StaticSplitSecond.v).
+   C01_static_merge_left_frame: mergeLeft never touches the out-heaps, and a variable outside mergeLeft's final block sits
+   in the same block, with the same block record and the same offset, as when mergeLeft(l) was called (`mframe`).
+   C01_static_split_second_half: from the two-mode invariant MLS at mergeLeft's exit, updateWeightedPosition(r') +
+   mergeRight(r') return with every slack >= 0 - case split on whether the right half was merged into l's block (merged:
+   MRI directly, updateWeightedPosition moves nothing; not merged: r moves rigidly to the right onto its optimum).
+   C01_static_split_all_sat: ONE WHOLE Blocks::split, from the invariants Solver::refine's second loop works in
+   (book/act_inv/forest, all blocks at their optimum, every slack >= 0, block b stationary for findMinLM's multipliers,
+   lm(c) <= 0, the time-stamp / heap facts of refine's first loop, #blocks <= length of the out-heap vector), returns
+   with every slack >= 0 and book / act_inv / all_blk_ok re-established: no hypothesis about heap roots, signs, frames.
+   Still to do for passes_ok: stationarity of b from findMinLM on a blk_ok (not `fresh`) block, forest through
+   mergeLeft/mergeRight, totality (static_split returns), the vector-length facts after cleanup for the next pass. *)
+From Adapt Require Import Vpsc.StaticSplitSecond Vpsc.StaticSplitSecondEx.
+Theorem C01_static_merge_left_frame Yb rv s l s' :
+  MLS Yb rv (base s) l -> HW (stamp s l) l -> inhabited (base s) l ->
+  merge_left s l = Ok s' ->
+  bout s' = bout s /\ length (blocks (base s')) = length (blocks (base s)) /\
+  exists M, MLS Yb rv (base s') M /\
+    (forall i, (i < length (scons (base s')))%nat -> blk_of (base s') (cr (con_of (base s') i)) = M ->
+               blk_of (base s') (cl (con_of (base s') i)) <> M -> 0 <= slack_val (base s') i) /\
+    scons (base s') = scons (base s) /\ svars (base s') = svars (base s) /\
+    (forall u, (u < length (svars (base s)))%nat -> blk_of (base s') u <> M ->
+       blk_of (base s') u = blk_of (base s) u /\
+       block_of (base s') (blk_of (base s') u) = block_of (base s) (blk_of (base s') u) /\
+       off_of (base s') u = off_of (base s) u).
+Proof.
+  intros I HWs Inh H. split; [exact (merge_left_bout s l s' H)|]. split; [exact (merge_left_lblocks s l s' H)|].
+  exact (merge_left_split_frame Yb rv s l s' I HWs Inh H).
+Qed.
+Print Assumptions C01_static_merge_left_frame.
+
+Theorem C01_static_split_second_half Yb rv s4 M s6 :
+  MLS Yb rv (base s4) M ->
+  (forall i, (i < length (scons (base s4)))%nat -> blk_of (base s4) (cr (con_of (base s4) i)) = M ->
+             blk_of (base s4) (cl (con_of (base s4) i)) <> M -> 0 <= slack_val (base s4) i) ->
+  T2 s4 -> length (ctime s4) = length (scons (base s4)) -> (length (blocks (base s4)) <= length (bout s4))%nat ->
+  let R := blk_of (base s4) rv in
+  let b5 := update_weighted_position (base s4) R in
+  (R <> M -> posn (block_of (base s4) R) <= posn (block_of b5 R)) ->
+  merge_right (set_base s4 b5) R = Ok s6 ->
+  all_sat0 (base s6) /\ book (base s6) /\ act_inv (base s6) /\ all_blk_ok (base s6) /\
+  scons (base s6) = scons (base s4) /\ svars (base s6) = svars (base s4).
+Proof. exact (split_second_half Yb rv s4 M s6). Qed.
+Print Assumptions C01_static_split_second_half.
+
+Theorem C01_static_split_all_sat s b c s7 :
+  book (base s) -> act_inv (base s) -> forest (base s) -> wf_vars (svars (base s)) -> all_blk_ok (base s) -> all_sat0 (base s) ->
+  act_of (base s) c = true -> b = blk_of (base s) (cl (con_of (base s) c)) ->
+  stationary_block (base s) (base s) b -> lm_of (base s) c <= 0 ->
+  T2 s -> (forall x, (x < length (scons (base s)))%nat -> ctime_of s x = ctr s) ->
+  length (ctime s) = length (scons (base s)) ->
+  length (bin s) = length (blocks (base s)) -> length (btime s) = length (blocks (base s)) ->
+  (length (blocks (base s)) <= length (bout s))%nat ->
+  (forall B, inhabited (base s) B -> exists h, bin_of s B = Some h /\ hgoodC s h /\ hsound s B h /\ hcomplete s B h) ->
+  static_split s b c = Ok s7 ->
+  all_sat0 (base s7) /\ book (base s7) /\ act_inv (base s7) /\ all_blk_ok (base s7) /\
+  scons (base s7) = scons (base s) /\ svars (base s7) = svars (base s).
+Proof. exact (static_split_all_sat s b c s7). Qed.
+Print Assumptions C01_static_split_all_sat.
+
+(* non-vacuity: the state of C01_static_split_first_half_example; mergeLeft(l) returns sf_s4, where every premise of the
+   second half holds and mergeRight returns; every premise of C01_static_split_all_sat holds on sf_s and the model's
+   Blocks::split returns (the MLS / HW premises of C01_static_merge_left_frame are established inside
+   C01_static_split_first_half on the same state) *)
+Example C01_static_split_second_half_example :
+  exists M, MLS (Yof (base sf_s)) 1 (base sf_s4) M /\
+    (forall i, (i < length (scons (base sf_s4)))%nat -> blk_of (base sf_s4) (cr (con_of (base sf_s4) i)) = M ->
+               blk_of (base sf_s4) (cl (con_of (base sf_s4) i)) <> M -> 0 <= slack_val (base sf_s4) i) /\
+    T2 sf_s4 /\ length (ctime sf_s4) = length (scons (base sf_s4)) /\
+    (length (blocks (base sf_s4)) <= length (bout sf_s4))%nat /\
+    posn (block_of (base sf_s4) sf_R) <= posn (block_of (update_weighted_position (base sf_s4) sf_R) sf_R) /\
+    sf_R = blk_of (base sf_s4) 1 /\ sf_second_returns = true.
+Proof. exact split_second_half_example. Qed.
+Example C01_static_split_all_sat_example :
+  book (base sf_s) /\ act_inv (base sf_s) /\ forest (base sf_s) /\ wf_vars (svars (base sf_s)) /\ all_blk_ok (base sf_s) /\
+  all_sat0 (base sf_s) /\ act_of (base sf_s) 0 = true /\ 1%nat = blk_of (base sf_s) (cl (con_of (base sf_s) 0)) /\
+  stationary_block (base sf_s) (base sf_s) 1 /\ lm_of (base sf_s) 0 <= 0 /\
+  T2 sf_s /\ (forall x, (x < length (scons (base sf_s)))%nat -> ctime_of sf_s x = ctr sf_s) /\
+  length (ctime sf_s) = length (scons (base sf_s)) /\
+  length (bin sf_s) = length (blocks (base sf_s)) /\ length (btime sf_s) = length (blocks (base sf_s)) /\
+  (length (blocks (base sf_s)) <= length (bout sf_s))%nat /\
+  (forall B, inhabited (base sf_s) B -> exists h, bin_of sf_s B = Some h /\ hgoodC sf_s h /\ hsound sf_s B h /\ hcomplete sf_s B h) /\
+  sf_split_returns = true.
+Proof. exact static_split_all_sat_example. Qed.
+
+(* ---- Solver::refine's loop cannot throw (Vpsc/StaticRefineNoThrow.v); one pass of the loop returns all-satisfied as soon
+   as Blocks::split is called in a `split_ready` state (Vpsc/StaticRefinePass.v).
+   C01_static_refine_loop_cannot_throw: mergeRight, Blocks::split, the scan loop and the try loop never produce
+   UnsatisfiableException (ThrowUnsat) - at worst the model runs out of fuel; so a throw of Solver::refine is a throw of
+   its closing scan (C01_static_refine_throw_only_in_scan).
+   C01_static_refine_pass_all_sat_partial: PARTIAL towards `passes_ok` - the hypothesis `scan_ready` (the premises of
+   C01_static_split_all_sat at the state in which the pass calls Blocks::split: forest, stationarity of the block for
+   findMinLM's multipliers, time stamps / heap facts / vector lengths) stays VISIBLE; what is still missing is deriving it
+   from refine's loop invariant (findMinLM stationarity on a blk_ok rather than `fresh` block, forest through
+   mergeLeft/mergeRight, lengths after cleanup) and totality (the pass returns). *)
+From Adapt Require Import Vpsc.StaticRefineNoThrow Vpsc.StaticRefinePass Vpsc.StaticRefinePassEx.
+Theorem C01_static_refine_loop_cannot_throw tries s c : refine_loop tries s <> ThrowUnsat c.
+Proof. exact (refine_loop_nothrow tries s c). Qed.
+Print Assumptions C01_static_refine_loop_cannot_throw.
+Theorem C01_static_refine_throw_only_in_scan s c :
+  static_refine s = ThrowUnsat c ->
+  exists s1, refine_loop MAXTRIES s = Ok s1 /\ sslack (note_scan s1) c < ZERO_UPPERBOUND.
+Proof. exact (static_refine_throw_only_in_scan s c). Qed.
+Print Assumptions C01_static_refine_throw_only_in_scan.
+Example C01_static_refine_throw_only_in_scan_example : exists c, static_refine (static_init nt_vs nt_cs) = ThrowUnsat c.
+Proof. exact static_refine_throw_only_in_scan_example. Qed.
+
+Theorem C01_static_refine_pass_all_sat_partial s s' d :
+  all_sat0 (base s) -> scan_ready (blist (base (setup_all s))) (setup_all s) ->
+  refine_pass s = Ok (s', d) -> all_sat0 (base s').
+Proof. exact (refine_pass_all_sat s s' d). Qed.
+Print Assumptions C01_static_refine_pass_all_sat_partial.
+(* non-vacuity: on sf_pre the pass calls Blocks::split (block 1, lm(c0) = -4) in a split_ready state and returns *)
+Example C01_static_refine_pass_all_sat_partial_example :
+  all_sat0 (base sf_pre) /\ scan_ready (blist (base (setup_all sf_pre))) (setup_all sf_pre) /\
+  (exists s', refine_pass sf_pre = Ok (s', true)).
+Proof. exact refine_pass_all_sat_example. Qed.
